@@ -57,7 +57,7 @@ Print Assumptions C09_unnormalised_refuted.
     choices made, i.e. the distribution of the sampled program when every
     index i is drawn with probability w_i of its sampler (C09_alias_exact).
 
-    For a well-formed table (Det.wf_at: every reachable non-terminal has rules
+    For a well-formed table (Det.wf_at_lang: every reachable non-terminal has rules
     with positive weights summing to 1) whose weight lists follow the rule
     order (keys_ok):  replaying an entry's choices yields its program;  the
     probability of sampling p is exactly the probability the grammar reports
@@ -65,7 +65,7 @@ Print Assumptions C09_unnormalised_refuted.
     a member with the probability of P but sample_program returns P itself);
     the total mass is 1;  no program is produced by two choice lists. *)
 Theorem C09_program_distribution : forall fuel tbl w start,
-  wf_at fuel tbl w start = true -> keys_ok tbl w = true ->
+  wf_at_lang fuel tbl w start = true -> keys_ok tbl w = true ->
   let D := sample_dist fuel tbl w start in
   (forall e, In e D -> forall rest,
        sample_program fuel tbl w start (e_script e ++ rest) = SOk (e_prog e, rest)) /\
